@@ -89,6 +89,21 @@ def cases(draw):
                                                          {"id": 9208, "kind": "Element", "kw": {}}]
         if recipe["kind"] == "Object":
             recipe["name"] = "Order"
+    elif draw(st.integers(0, 5)) == 0:
+        # TUPLE items under named properties (per-position handling of the enclosing property), validated by
+        # several threads at once
+        line = {"id": 9301, "kind": "Object", "kw": {}, "name": "Line", "props": [
+            {"name": "sku", "source": None, "required": False, "element": {"id": 9302, "kind": "String", "kw": {}}}]}
+        recipe = {"id": 9300, "kind": draw(st.sampled_from(["Object", "Element"])), "kw": {}, "props": [
+            {"name": "lines", "source": draw(st.sampled_from([None, "order-lines"])), "required": False, "element":
+                {"id": 9303, "kind": "Array", "kw": {}, "sub": {
+                    "items": [{"id": 9304, "kind": "String", "kw": {}}, {"id": 9305, "kind": "Integer", "kw": {}}, line],
+                    "additionalItems": draw(st.sampled_from([True, False]))}}},
+            {"name": "pair", "source": None, "required": False, "element":
+                {"id": 9306, "kind": "Array", "kw": {}, "sub": {
+                    "items": [{"id": 9307, "kind": "Number", "kw": {}}, {"id": 9308, "kind": "Number", "kw": {}}]}}}]}
+        if recipe["kind"] == "Object":
+            recipe["name"] = "Order"
     schema = R.to_schema(recipe)
     n = draw(st.integers(2, 4))
     # threads draw (with repetition) from one small pool, so that the same value is validated by
@@ -97,6 +112,10 @@ def cases(draw):
     if "dependencies" in canon(schema) and recipe.get("id") == 9100:
         pool += [{"a": 1}, {"b": 1}, {"c": 1, "d": 2}, {"a": 1, "b": 2, "c": 3, "d": 4, "e": 5}, {"a": 1, "e": 1},
                  {"d": 1}, {"b": 1, "a": 2}]
+    if recipe.get("id") == 9300:
+        key = "order-lines" if "order-lines" in canon(schema) else "lines"
+        pool = [{key: ["a", 1, {"sku": "x"}]}, {key: ["a", 1, {"sku": "x"}], "pair": [1, 2]}, {key: ["a"]}, {key: [1]},
+                {"pair": [1, 2.5]}, {"pair": ["x"]}, {key: ["a", 1, {"sku": 5}]}, {key: ["b", 2, {}, 7], "pair": [0, 0]}]
     if recipe.get("id") == 9200:
         pool = [{}, {}, {"n": 1}, {"n": 2}, {"lines": []}, {"meta": 5}] + pool[:2]
     if "format" in canon(schema):
